@@ -49,7 +49,7 @@ fn observe(dir: &Path) -> Value {
            "arch": {"0": entry(dir.join("arch.0.log")), "1": entry(dir.join("arch.1.log")), "2": entry(dir.join("arch.2.log"))}})
 }
 
-fn scenario(rng: &mut Rng, trig: &str, limit: u64, events: &Arc<Mutex<Vec<Value>>>, problems: &mut Vec<Value>) {
+fn scenario(rng: &mut Rng, trig: &str, limit: u64, events: &Arc<Mutex<Vec<Value>>>, problems: &mut Vec<Value>, long: usize) {
     let scratch = Scratch::new("rtrace");
     let dir = scratch.path().to_path_buf();
     let pre = [-1i64, 0, 1, 2, 3][rng.below(5) as usize];
@@ -90,13 +90,15 @@ fn scenario(rng: &mut Rng, trig: &str, limit: u64, events: &Arc<Mutex<Vec<Value>
         }
         Ok(())
     })));
-    let nthreads = 2 + rng.below(3) as usize;
+    // a long lifetime: `long` records per thread from four threads (counters, once-flags and caches that only
+    // misbehave after hundreds of records)
+    let nthreads = if long > 0 { 4 } else { 2 + rng.below(3) as usize };
     let barrier = Arc::new(Barrier::new(nthreads));
     let mut hs = vec![];
     for _ in 0..nthreads {
         let a = appender.clone();
         let b = barrier.clone();
-        let sizes: Vec<i64> = (0..1 + rng.below(3)).map(|_| 1 + rng.below(3) as i64).collect();
+        let sizes: Vec<i64> = (0..if long > 0 { long as u64 } else { 1 + rng.below(3) }).map(|_| 1 + rng.below(3) as i64).collect();
         hs.push(std::thread::spawn(move || {
             let mut probs = vec![];
             b.wait(); // the first records arrive together
@@ -116,15 +118,16 @@ fn scenario(rng: &mut Rng, trig: &str, limit: u64, events: &Arc<Mutex<Vec<Value>
     log4rs::verif::set_global_callback(None);
 }
 
-/// `rolltrace <out.ndjson> <startup|size> <limit units> <runs> <seed>`
+/// `rolltrace <out.ndjson> <startup|size> <limit units> <runs> <seed> [records per thread of the long first scenario]`
 pub fn main(args: &[String]) {
     quiet_panics();
     let events = Arc::new(Mutex::new(vec![]));
     let mut problems = vec![];
     let mut rng = Rng::new(args[4].parse().unwrap());
     let runs: usize = args[3].parse().unwrap();
-    for _ in 0..runs {
-        scenario(&mut rng, &args[1], args[2].parse().unwrap(), &events, &mut problems);
+    let long: usize = args.get(5).map(|s| s.parse().unwrap()).unwrap_or(0);
+    for k in 0..runs {
+        scenario(&mut rng, &args[1], args[2].parse().unwrap(), &events, &mut problems, if k == 0 { long } else { 0 });
     }
     let ev = events.lock().unwrap();
     write_ndjson(&args[0], &ev);
